@@ -31,13 +31,13 @@ def stacks(depth):
 
 def scripts(rng, full):
     base = []
-    for status in (0, 200, 404):
+    for status in (0, 200, 404, 500, 503):
         for flush in (False, True):
             for hijack in (False, True):
                 base.append({"status": status, "flush": flush, "hijack": hijack,
                              "hdrs": rng.sample(["X-H1", "Content-Type", "X-H2", "Etag"], rng.randint(0, 3)),
                              "chunks": rng.choice([[], [5], [3, 20], [9, 1, 40], [70000]])})
-    return base if full else rng.sample(base, 4)
+    return base if full else rng.sample(base, 6)
 
 
 def classify(clause, sc, report, evs):
